@@ -81,8 +81,8 @@ func c10ParamInfluence(c *Ctx) {
 		return
 	}
 	type pathRes struct {
-		arm  string
-		deps map[string]bool
+		arm   string
+		deps  map[string]bool
 		trail []int
 	}
 	var results []pathRes
